@@ -340,3 +340,16 @@ func ValidatePaymentRevision(current, revision types.FileContractRevision, payme
 	}
 	return nil
 }
+
+// RenewalBaseCosts returns the base revenue (flat + storagePrice * filesize *
+// extension) and the base risked collateral (collateralPrice * filesize *
+// extension) of a renewal. filesize and extension are supplied by the renter:
+// ok is false if any of the products or the sum overflows.
+func RenewalBaseCosts(flat, storagePrice, collateralPrice types.Currency, filesize, extension uint64) (revenue, collateral types.Currency, ok bool) {
+	storage, o1 := storagePrice.Mul64WithOverflow(filesize)
+	storage, o2 := storage.Mul64WithOverflow(extension)
+	revenue, o3 := flat.AddWithOverflow(storage)
+	collateral, o4 := collateralPrice.Mul64WithOverflow(filesize)
+	collateral, o5 := collateral.Mul64WithOverflow(extension)
+	return revenue, collateral, !(o1 || o2 || o3 || o4 || o5)
+}
